@@ -101,6 +101,10 @@ class C11(UdpCheck):
             plan.append({"op": "flood", "global": True, "t": round(0.6 + rng.random() * (dur - 4.5), 3), "kind": kind,
                          "srcmode": srcmode, "count": rng.choice([100, 400, 1500]), "spread": rng.choice([0.0, 0.05, 0.5]),
                          "n": j, "victim": rng.randrange(n)})
+        if n > 1 and rng.random() < 0.25:
+            # the kernel refuses datagrams towards ONE honest client for a while: the others must not notice
+            victim = rng.randrange(n)
+            plan.append({"op": "sockerr", "t": round(1.5 + rng.random() * (dur - 6), 3), "d": rng.choice([0.3, 0.8]), "c": victim})
         cfg["duration"] = dur
         return {"cfg": cfg, "plan": plan}
 
